@@ -1,4 +1,4 @@
-(* Determ/Table.v -- the hand-maintained coverage table of C09.
+(* Determ/ProofsTable.v -- the hand-maintained coverage table of C09.
    Every map-range site of internal/configs{,/version1,/version2} is listed here by
    (enclosing function, n-th map range inside it) together with, for each syntactic class the
    translator may report for it, the operand / targets it must have and the THEOREMS that cover
